@@ -189,13 +189,14 @@ def _sh_p3(tier):
 
 
 def _sh_b3(tier):
-    return product_pins(p=[1, 2], h0=[0, 1], s0=[0, 1, 2, 3], s1=[0, 1, 2, 3])
+    return product_pins(p=[1], h0=[0, 1], s0=[0, 1, 2, 3]) + product_pins(p=[2], h0=[0], s0=[1, 2], s1=[0, 1, 2, 3])
 
 
 def _sh_word(tier):
     if tier == "quick":
         return product_pins(p=[2], h0=[0], l0=[1], s0=[0, 1, 2, 3], wlen=[2])
-    return product_pins(p=[2], h0=[0], l0=[1, 2], s0=[0, 1, 2, 3], wlen=[2, 3])
+    return product_pins(p=[2], h0=[0], l0=[1], s0=[0, 1, 2, 3], wlen=[2, 3]) + \
+        product_pins(p=[2], h0=[0], l0=[2], s0=[0, 1, 2, 3], wlen=[2])
 
 
 FUNCS = ["CFG.contains", "CFG.__contains__", "CFG.generate_epsilon", "CFG.to_normal_form", "CYKTable.*",
